@@ -22,15 +22,49 @@ import numpy as np
 import z3
 
 from . import fp
-from .core import SBool, SInt
+from .core import SBool, SInt, SReal
 from .stubs import shadow
 
 
 def _is_sym(x):
-    return isinstance(x, (fp.SFloat, SInt))
+    return isinstance(x, (fp.SFloat, SInt, SReal))
 
 
-def _lift(x):
+class _RealOps:
+    """Operands of the Real-ideal engine (symx.core.SReal): the defining formulas are evaluated in exact real arithmetic."""
+
+    def __init__(self, x):
+        self.x = x if isinstance(x, SReal) else SReal(x)
+        self.hi = 0  # tolerances are concrete and checked by the caller's own code
+
+    def _w(self, o):
+        return o.x if isinstance(o, _RealOps) else o
+
+    def __sub__(self, o):
+        return _RealOps(self.x - self._w(o))
+
+    def __add__(self, o):
+        return _RealOps(self.x + self._w(o))
+
+    def __mul__(self, o):
+        return _RealOps(self.x * self._w(o))
+
+    def __abs__(self):
+        t = self.x.t
+        return _RealOps(SReal(z3.If(t >= 0, t, -t)))
+
+    def __eq__(self, o):
+        return SBool(self.x.t == self._w(o).t)
+
+    def __le__(self, o):
+        return SBool(self.x.t <= self._w(o).t)
+
+    __hash__ = None
+
+
+def _lift(x, real=False):
+    if isinstance(x, SReal) or real:
+        return _RealOps(x)
     if isinstance(x, SInt):
         raise fp.Unsupported("isclose of a symbolic integer without enclosure")
     r = fp.SFloat.lift(x)
@@ -47,7 +81,8 @@ def _bt(c):
 def fp_math_isclose(a, b, *, rel_tol=1e-09, abs_tol=0.0):
     if not any(_is_sym(v) for v in (a, b, rel_tol, abs_tol)):
         return math.isclose(a, b, rel_tol=rel_tol, abs_tol=abs_tol)
-    a, b, r, t = _lift(a), _lift(b), _lift(rel_tol), _lift(abs_tol)
+    real = any(isinstance(v, SReal) for v in (a, b))
+    a, b, r, t = _lift(a, real), _lift(b, real), _lift(rel_tol, real), _lift(abs_tol, real)
     if r.hi < 0 or t.hi < 0:
         raise ValueError("tolerances must be non-negative")
     diff = abs(b - a)
@@ -56,7 +91,8 @@ def fp_math_isclose(a, b, *, rel_tol=1e-09, abs_tol=0.0):
 
 
 def _np_isclose1(a, b, rtol, atol):
-    a, b, r, t = _lift(a), _lift(b), _lift(rtol), _lift(atol)
+    real = any(isinstance(v, SReal) for v in (a, b))
+    a, b, r, t = _lift(a, real), _lift(b, real), _lift(rtol, real), _lift(atol, real)
     return SBool(z3.simplify(z3.Or(_bt(a == b), _bt(abs(a - b) <= t + r * abs(b)))))
 
 
